@@ -58,10 +58,11 @@ func runC01(c *Ctx) {
 		{name: "N2.F1.silent-link.response-timeout", n: 2, bound: vrt.Budget{F: 1}, faults: env.FaultSet{Silent: true, SilentDrop: true, OnlyTypes: map[byte]bool{env.PUBLISH: true, env.PUBREL: true, env.SUBSCRIBE: true, env.UNSUBSCRIBE: true}}, keep: []bool{true}, phases: []byte{'S', 'N'}, kinds: []string{"p1", "p2", "sub", "unsub"}, rtmo: 2 * time.Second},
 		{name: "N1.F2.noconnack", n: 1, bound: vrt.Budget{F: 2}, faults: env.FaultSet{NoConnAck: true, LostClose: true, OnlyTypes: map[byte]bool{env.CONNECT: true, env.PUBLISH: true, env.SUBSCRIBE: true}}, keep: []bool{true}, phases: []byte{'B', 'S'}, tmo: 3 * time.Second, kinds: all},
 	}
+	quickN := len(fams) // the thorough tier runs the quick families first, unchanged, then the deeper ones
 	if c.Thorough() {
-		fams = []fam{
+		fams = append(fams, []fam{
 			{name: "N3.F2", n: 3, bound: vrt.Budget{F: 2}, faults: conn, keep: []bool{true}, phases: []byte{'B', 'S', 'N', 'O'}, kinds: []string{"p1", "p2", "sub", "unsub"}},
-			{name: "N2.F2", n: 2, bound: vrt.Budget{F: 2}, faults: conn, keep: []bool{true, false}, phases: []byte{'B', 'S', 'N', 'O', 'H'}, kinds: all},
+			{name: "N2.F2.all", n: 2, bound: vrt.Budget{F: 2}, faults: conn, keep: []bool{true, false}, phases: []byte{'B', 'S', 'N', 'O', 'H'}, kinds: all},
 			{name: "N2.F3", n: 2, bound: vrt.Budget{F: 3}, faults: conn, keep: []bool{true}, phases: []byte{'B', 'N', 'O'}, kinds: []string{"p1", "p2", "sub"}},
 			{name: "N2.F1.P2.S1", n: 2, bound: vrt.Budget{F: 1, P: 2, S: 1, Total: 3}, faults: base, keep: []bool{true}, phases: []byte{'B', 'N', 'O'}, kinds: []string{"p1", "p2", "sub"}},
 			{name: "manual.N2.F2", n: 2, bound: vrt.Budget{F: 2}, faults: conn, keep: []bool{true, false}, phases: []byte{'B', 'S', 'N', 'O'}, kinds: all, manual: true},
@@ -69,13 +70,14 @@ func runC01(c *Ctx) {
 			{name: "N2.F2.connect-ctx-cancelled", n: 2, bound: vrt.Budget{F: 2}, faults: conn, keep: []bool{true, false}, phases: []byte{'B', 'S', 'N', 'O', 'H'}, kinds: all, cancel: true},
 			{name: "N2.F2.silent-link.response-timeout", n: 2, bound: vrt.Budget{F: 2}, faults: env.FaultSet{Silent: true, SilentDrop: true, LostClose: true, OnlyTypes: map[byte]bool{env.PUBLISH: true, env.PUBREL: true, env.SUBSCRIBE: true, env.UNSUBSCRIBE: true}}, keep: []bool{true}, phases: []byte{'B', 'S', 'N'}, kinds: []string{"p1", "p2", "sub", "unsub"}, rtmo: 2 * time.Second},
 			{name: "N2.F2.noconnack", n: 2, bound: vrt.Budget{F: 2}, faults: env.FaultSet{NoConnAck: true, LostClose: true, AckLost: true}, keep: []bool{true}, phases: []byte{'B', 'S'}, tmo: 3 * time.Second, kinds: all},
-		}
+		}...)
 	}
 	var sample *rcRun
-	for _, f := range fams {
+	for fi, f := range fams {
+		deep := fi >= quickN
 		c.Bound(f.name, fmt.Sprintf("all workloads of length<=%d over %v x phases %q; faults %+v per client->broker packet; budget %s; session kept %v", f.n, f.kinds, string(f.phases), f.faults, f.bound, f.keep))
 		for _, reqs := range rcWorkloads(f.n, f.kinds, f.phases) {
-			if !c.Thorough() && !rcLateOnlyLast(reqs) {
+			if !deep && !rcLateOnlyLast(reqs) {
 				continue
 			}
 			for _, keep := range f.keep {
